@@ -281,10 +281,20 @@ def render(d, rng=None):
         from . import docprops
         d = docprops.expected(d)      # lenient spellings are rendered from the NFC content (zones verbatim)
     o = W(rng)
+    def blank_lines(lo, hi):
+        for _ in range(o.r.randint(lo, hi)):
+            o.w((" " * o.r.randint(1, 3) if o.r.random() < 0.3 else "") + "\n")
     if d["front"] is not None and d["front"].strip():
-        o.w("---\n" + d["front"] + "\n---\n\n")
+        o.w("---\n" + d["front"] + "\n---\n")
+        if o.flip(0.3):
+            blank_lines(0, 3)         # blank lines between frontmatter and document: any number (canonical: one)
+        else:
+            o.w("\n")
+    elif o.flip(0.15):
+        blank_lines(1, 2)             # leading blank lines before the grammar / envelope line
     if d["grammar"]:
-        o.w("OCTAVE::" + d["grammar"] + "\n")
+        o.w("OCTAVE::" + d["grammar"])
+        eol(o)
     o.w("===" + d["name"] + "===")
     eol(o)
     if d["meta"]:
